@@ -693,18 +693,16 @@ func (env *SpecEnv) quant(forall bool, n *ast.CallExpr) *Val {
 	bv := fmt.Sprintf("%s!%d", sanitize(id.Name), x.vc.nfresh)
 	sub := env.child()
 	sub.vars[id.Name] = mkInt(types.Typ[types.Int], bv)
-	facts, body := x.captured(func() string { return sub.eval(n.Args[3]).T() })
+	facts, body := x.captured(func() string { return sub.eval(n.Args[3]).T() }, bv)
 	rng := tAnd(tCmp("<=", lo, bv), tCmp("<", bv, hi))
 	if forall {
-		if env.pol == -1 {
-			// assumed: the (valid) side facts strengthen the instance
-			return mkBool("(forall ((" + bv + " Int)) " + tImp(rng, tAnd(facts, body)) + ")")
+		if env.pol == -1 && !strings.Contains(body, "(exists ") {
+			// assumed: the side facts are valid type invariants of memory; using
+			// them as hypotheses would only make the assumption harder to apply
+			// (kept for forall-exists shapes, where they curb instantiation)
+			return mkBool("(forall ((" + bv + " Int)) " + tImp(rng, body) + ")")
 		}
 		return mkBool("(forall ((" + bv + " Int)) " + tImp(tAnd(rng, facts), body) + ")")
-	}
-	if env.pol == 0 || env.pol == 1 {
-		// to be proved: the side facts are not part of the claim
-		return mkBool("(exists ((" + bv + " Int)) " + tAnd(rng, body) + ")")
 	}
 	return mkBool("(exists ((" + bv + " Int)) " + tAnd(rng, facts, body) + ")")
 }
@@ -737,29 +735,45 @@ func (env *SpecEnv) quantTyped(forall bool, n *ast.CallExpr) *Val {
 	})
 	facts, body := x.captured(func() string {
 		return sub.eval(n.Args[2]).T()
-	})
+	}, bvv.L...)
 	if forall {
 		if env.pol == -1 {
-			return mkBool("(forall (" + strings.Join(binders, " ") + ") " + tImp(domain, tAnd(facts, body)) + ")")
+			return mkBool("(forall (" + strings.Join(binders, " ") + ") " + tImp(domain, body) + ")")
 		}
 		return mkBool("(forall (" + strings.Join(binders, " ") + ") " + tImp(tAnd(domain, facts), body) + ")")
-	}
-	if env.pol == 0 || env.pol == 1 {
-		return mkBool("(exists (" + strings.Join(binders, " ") + ") " + tAnd(domain, body) + ")")
 	}
 	return mkBool("(exists (" + strings.Join(binders, " ") + ") " + tAnd(domain, facts, body) + ")")
 }
 
 // captured runs f while collecting (instead of asserting) the side facts it
 // generates; they mention bound variables and must stay under the binder.
-func (x *Exec) captured(f func() string) (facts string, body string) {
+func (x *Exec) captured(f func() string, bound ...string) (facts string, body string) {
 	vc := x.vc
 	saved := vc.capture
 	var local []string
 	vc.capture = &local
-	defer func() { vc.capture = saved }()
-	body = f()
-	return tAnd(local...), body
+	func() {
+		defer func() { vc.capture = saved }()
+		body = f()
+	}()
+	// facts that do not mention the bound variables hold outside the binder:
+	// hand them to the enclosing context (they are then available when the
+	// quantified formula is instantiated)
+	var keep []string
+	for _, t := range local {
+		mentions := len(bound) == 0
+		for _, b := range bound {
+			if strings.Contains(t, b) {
+				mentions = true
+			}
+		}
+		if mentions {
+			keep = append(keep, t)
+		} else {
+			vc.assume(t)
+		}
+	}
+	return tAnd(keep...), body
 }
 
 func (env *SpecEnv) callSpec(sf *SpecFunc, args []*Val) *Val {
@@ -860,7 +874,7 @@ func (env *SpecEnv) callSpec(sf *SpecFunc, args []*Val) *Val {
 	if env.depth > 20 {
 		sfail("spec func expansion too deep (missing recursion marker?) in %s", sf.Name)
 	}
-	sub := &SpecEnv{x: x, st: env.st, old: env.old, pkg: spkg, vars: map[string]*Val{}, depth: env.depth + 1}
+	sub := &SpecEnv{x: x, st: env.st, old: env.old, pkg: spkg, vars: map[string]*Val{}, depth: env.depth + 1, pol: env.pol}
 	for i, p := range sf.Params {
 		sub.vars[p.Name] = env.coerce(args[i], ptypes[i])
 	}
